@@ -54,7 +54,7 @@ func genCandidate(r vlib.Rnd) *vlib.Project {
 		case 2:
 			return vlib.SingleFile(genBodyFamily(r))
 		case 3:
-			return vlib.SingleFile(genAliasFamily(r))
+			return vlib.SingleFile(genAliasFamily(r, false))
 		}
 		return vlib.SingleFile(genTagSoup(r))
 	case 6:
@@ -248,7 +248,7 @@ func genAllOfFamily(r vlib.Rnd) []byte {
 // genAliasFamily: user types whose whole value is a reference to a user type - to another alias, to themselves (the schema
 // library accepts "@a // {nullable: true}" as the body of @a), in chains and mutual pairs, or to a mixed value - used in
 // every position that looks through references: Headers, Query, Path (as the schema and as a property), bodies, allOf.
-func genAliasFamily(r vlib.Rnd) []byte {
+func genAliasFamily(r vlib.Rnd, keyShortcuts bool) []byte {
 	var sb strings.Builder
 	sb.WriteString("JSIGHT 0.3\n\n")
 	n := 1 + r.Intn(3)
@@ -288,6 +288,11 @@ func genAliasFamily(r vlib.Rnd) []byte {
 		fmt.Fprintf(&sb, "  200\n    Headers\n      %s\n    Body any\n", t())
 	default:
 		fmt.Fprintf(&sb, "  200\n    {\"p\": %s}\n", t())
+	}
+	if keyShortcuts && vlib.Chance(r, 1, 10) {
+		// the alias as the type of the keys of an object (key shortcut).  Only for the isolated-worker check of C01: a
+		// self-referring mixed type in this position kills the process inside the schema library (open finding A2)
+		fmt.Fprintf(&sb, "  404\n    {\n      %s: 1\n    }\n", t())
 	}
 	return []byte(sb.String())
 }
